@@ -471,7 +471,7 @@ UNIT = Unit("C05.extract_iter", EI, ei_setup,
             methods={**STD_METHODS, ("FrameIterator", "__next__"): hook_fi_next}, props=dict(OPT_PROPS), ctors=dict(CTORS),
             known_classes=KNOWN, invariants=INVARIANTS, on_yield=on_yield,
             star_arity={"to_elaborate.pop()": 2},
-            options=dict(iter_any_seq=True),
+            options=dict(iter_any_seq=True, par_k=16, par_after=("while#2",)),
             tuple_types={},
             assumptions=["hooks raise only Exception instances (BaseException-only exceptions pass through by design)",
                          "hook results that are Sequences are builtin tuples or lists",
